@@ -4,10 +4,12 @@
     if (r == 3) { ST.forks++; st.nforks++; State s2 = st; addPc(s2, !cond, mf); jump(s2, fb); out.push_back(std::move(s2)); addPc(st, cond, mt); jump(st, tb); }
     else if (r == 1) jump(st, tb); else if (r == 2) jump(st, fb); else throw PathEnd{};
   }
+  bool yieldOnFork = false;
   void run(State st, std::vector<State>& out) {
     try {
       while (true) {
         Frame& fr = st.stack.back(); Instruction& I = *fr.it; curIt = fr.it; curOut = &out; curSt = &st; ++fr.it; ST.instr++;
+        if (yieldOnFork && !out.empty()) { --fr.it; ST.instr--; out.push_back(std::move(st)); return; }   // seeding phase: hand both sides of a fork back to the scheduler
         if (++st.steps > OPT.maxSteps) throw Unsupported{"per-path instruction limit"};
         if ((ST.instr & 0xfffff) == 0 && nowS() > OPT.budget) throw Unsupported{"wall-clock budget exhausted"};
         switch (I.getOpcode()) {
